@@ -12,3 +12,5 @@ CONSTANTS
  Dev_RecurseDropsArch = FALSE
  Dev_LookupUidFirst = FALSE
  Dev_UidCollision = FALSE
+ BottomUp = FALSE
+ Dev_UidSubtreeUnchecked = FALSE
